@@ -21,6 +21,7 @@ type DecEval struct {
 	Callees   []*ssa.Function // repository functions entered, in order (depth-first)
 	Direct    []*ssa.Function // direct callees of the decoder function
 	Stores    map[string]ai.Value
+	StoreObjs map[int]bool // objects stored into
 	StoreAt   map[string]ssa.Instruction
 	Weak      map[string]bool
 	Loads     map[string]bool
@@ -44,6 +45,8 @@ type elemAcc struct {
 	Idx   *ai.Int
 	Len   int64
 	At    ssa.Instruction
+	Obj   *ai.Object
+	Path  string
 }
 
 type indexOb struct {
@@ -225,7 +228,7 @@ func (c *Ctx) evalDecoderFrom(from *ai.State, write bool, lo, hi int, setup func
 	it := c.W.It
 	fn := c.decoderFn(write)
 	mp := c.mapperPtr()
-	ev := &DecEval{Lo: lo, Hi: hi, Write: write, Stores: map[string]ai.Value{}, StoreAt: map[string]ssa.Instruction{}, Weak: map[string]bool{}, Loads: map[string]bool{}, ExternArg: map[string][]ai.Value{}}
+	ev := &DecEval{Lo: lo, Hi: hi, Write: write, Stores: map[string]ai.Value{}, StoreAt: map[string]ssa.Instruction{}, Weak: map[string]bool{}, Loads: map[string]bool{}, ExternArg: map[string][]ai.Value{}, StoreObjs: map[int]bool{}}
 	if fn == nil || mp == nil {
 		ev.Undecided = append(ev.Undecided, "decoder or mapper object not found")
 		return ev
@@ -266,6 +269,7 @@ func (c *Ctx) evalDecoderFrom(from *ai.State, write bool, lo, hi int, setup func
 			if p.Obj.ID > c.W.NObjInit {
 				return
 			}
+			ev.StoreObjs[p.Obj.ID] = true
 			for _, k := range keys {
 				n := c.cellLabel(ai.CellKey{Obj: k.Obj, Path: ai.NormPath(k.Path)})
 				if old, ok := ev.Stores[n]; ok {
@@ -311,7 +315,7 @@ func (c *Ctx) evalDecoderFrom(from *ai.State, write bool, lo, hi int, setup func
 		Branch: func(*ai.State, *ssa.If, *ai.Bool) { ev.PathConds++ },
 		Elem: func(_ *ai.State, at ssa.Instruction, o *ai.Object, path string, idx *ai.Int, n int64) {
 			if o.ID <= c.W.NObjInit {
-				ev.Elems = append(ev.Elems, elemAcc{Array: c.cellLabel(ai.CellKey{Obj: o.ID, Path: ai.NormPath(path)}), Idx: idx, Len: n, At: at})
+				ev.Elems = append(ev.Elems, elemAcc{Array: c.cellLabel(ai.CellKey{Obj: o.ID, Path: ai.NormPath(path)}), Idx: idx, Len: n, At: at, Obj: o, Path: path})
 			}
 		},
 	}
